@@ -1,7 +1,7 @@
 // @parent src/bytes_mut.rs
 // Constructors and the remaining small entry points of BytesMut (bounded: sizes <= 8, contents symbolic):
 // with_capacity / new / zeroed / From<&[u8]> / From<&str> / FromIterator / Default, DerefMut writes
-// (frame: only the addressed byte changes), fmt::Write, Extend<&u8>, Extend<Bytes>, original_capacity_*.
+// (frame: only the addressed byte changes), fmt::Write, original_capacity_*.  (Extend: l_liars.rs)
 #![allow(unused_imports, unused_variables, unused_mut, dead_code)]
 use super::verif_m_wf::*;
 use super::*;
@@ -70,30 +70,22 @@ fn kx_m_deref_mut_write_frame() {
     core::mem::forget(b);
 }
 
-// @ob props=C01,C11 tier=thorough kind=Kbounded bound="allocation size 8; text <= 2 bytes" timeout=3000 leak=1 fns=fmt::Write_for_BytesMut::write_str,Extend<&u8>_for_BytesMut,Extend<Bytes>_for_BytesMut
+// @ob props=C01,C11 tier=quick kind=Kbounded bound="allocation size 8; text <= 4 ASCII bytes" leak=1 fns=fmt::Write_for_BytesMut::write_str
 #[kani::proof]
-#[kani::unwind(6)]
-fn kx_m_write_str_and_extend() {
+#[kani::unwind(10)]
+fn kx_m_write_str() {
     use core::fmt::Write;
     let (base, vcap) = alloc_fixed(8);
     let (mut b, g) = mvec_on(base, vcap);
     let l0 = g.len;
-    let i: usize = kani::any();
-    let which: u8 = kani::any();
     let src: [u8; 4] = kani::any();
     let n: usize = kani::any();
-    kani::assume(n <= 2);
-    if which == 0 {
-        kani::assume(src[0] < 0x80 && src[1] < 0x80 && src[2] < 0x80 && src[3] < 0x80);
-        let s: &str = unsafe { core::str::from_utf8_unchecked(&src[..n]) };
-        assert!(b.write_str(s).is_ok());
-    } else if which == 1 {
-        b.extend(src[..n].iter());
-    } else {
-        let st: &'static [u8; 4] = unsafe { &*(&src as *const [u8; 4]) };
-        b.extend(core::iter::once(Bytes::from_static(&st[..n])));
-    }
+    kani::assume(n <= 4);
+    kani::assume(src[0] < 0x80 && src[1] < 0x80 && src[2] < 0x80 && src[3] < 0x80);
+    let s: &str = unsafe { core::str::from_utf8_unchecked(&src[..n]) };
+    assert!(b.write_str(s).is_ok());
     assert!(b.len() == l0 + n);
+    let i: usize = kani::any();
     if i < n { assert!(b[l0 + i] == src[i]); }
     drop(b);
 }
